@@ -572,8 +572,8 @@ func VerifC16Order() {
 	}
 	var idents []*dst.Ident
 	n := 2
-	if vfTier() > 0 {
-		n += vfChoice("three", 2)
+	if vfTier() > 0 && len(specs) == 0 {
+		n += vfChoice("three", 2) // thorough: three used paths, only without a source import spec
 	}
 	// the used paths: pool paths, or two paths that differ only in letter case (the ordering of the
 	// required imports must still be total, otherwise map order leaks into alias assignment)
@@ -768,3 +768,57 @@ func VerifC16Decorate() {
 	w2, _ := NewDecoratorWithImports(gs2, vfLocal, goast.New()).DecorateFile(b2)
 	vfAssert(vfDeepEqual(d1, w1) && vfDeepEqual(d2, w2), "result-equals-call-made-alone")
 }
+
+// VerifC07Conflict: three used packages without source imports whose resolved names are symbolic and
+// may look like generated aliases ("p", "q", "p1", "q1"): every import added gets a name; all bound
+// names are pairwise distinct (a generated alias is re-checked against the names already taken), and
+// every reference uses the name bound to its path.
+func VerifC07Conflict() {
+	names := map[string]string{}
+	for i, p := range vfPool {
+		n := vfBytes("cname"+strconv.Itoa(i), 1, "pq")
+		if vfChoice("csuffix"+strconv.Itoa(i), 2) == 1 {
+			n += "1"
+		}
+		names[p] = n
+	}
+	var idents []*dst.Ident
+	for _, p := range vfPool {
+		idents = append(idents, &dst.Ident{Name: "N", Path: p})
+	}
+	file := vfFileWith(nil, idents)
+	calls := 0
+	res := NewRestorerWithImports(vfLocal, vfResolver{names: names, failAt: -1, calls: &calls})
+	af, err := res.RestoreFile(file)
+	vfAssert(err == nil, "no-error")
+	if err != nil {
+		return
+	}
+	vfReach("restored")
+	imps := vfRestoredImports(af)
+	vfAssert(len(imps) == len(vfPool), "each-used-path-imported-once")
+	bound := map[string]string{}
+	for _, s := range imps {
+		if s.has {
+			bound[s.path] = s.name
+		} else {
+			bound[s.path] = names[s.path]
+		}
+	}
+	for i := range imps {
+		for j := i + 1; j < len(imps); j++ {
+			vfAssert(bound[imps[i].path] != bound[imps[j].path], "conflict/bound-names-distinct")
+		}
+	}
+	for _, id := range idents {
+		se, ok := res.Ast.Nodes[id].(*ast.SelectorExpr)
+		vfAssert(ok, "conflict/selector")
+		if ok {
+			vfAssert(se.X.(*ast.Ident).Name == bound[id.Path], "conflict/selector-uses-bound-name")
+		}
+	}
+}
+
+// VerifC07Deterministic: "conflicts renamed deterministically" - the map-order independence harness of
+// C16 also runs under C07.
+func VerifC07Deterministic() { VerifC16Order() }
